@@ -1,24 +1,35 @@
-/* C06 (guard / clamp logic only): binomial_bounds::get_lower_bound / get_upper_bound with the numerical approximation functions
- * compute_approx_binomial_{lower,upper}_bound replaced by ARBITRARY doubles (incl. NaN, +-inf): whatever they return,
- * lower <= estimate <= upper, lower >= number of samples, and arguments outside the domain are refused. */
+/* C06 (the shared binomial_bounds entry points used by Theta and Tuple sketches). Three kinds of query:
+ *  MODE 0  exact mode: theta = 1.0 (concrete), REAL approximation kernels, n and num_std_devs symbolic: lower == estimate == upper == n.
+ *  MODE 1  guard / clamp layer: theta CONCRETE from a list (the division n / theta then has a constant divisor), the numerical kernels
+ *          compute_approx_binomial_{lower,upper}_bound replaced by ARBITRARY doubles (incl. NaN, +-inf): whatever they return,
+ *          lower <= estimate <= upper, lower >= number of samples (or the estimate itself), never NaN.
+ *  MODE 2  argument checks: theta any double (not NaN), num_std_devs 0..5: refused exactly outside [0,1] x {1,2,3} (kernels havocked). */
 #include "harness.h"
 #include "api.h"
 void harness(void) {
   uint64_t n = ND_RANGE(0, (uint64_t)1 << NBITS);
-  double theta = verif_bits_to_double(VERIF_RANDOM_MODE() ? (0x3fe0000000000000ULL - (ND_U64() & 0xfffffffffffffULL)) : ND_U64());
   uint32_t k = (uint32_t)ND_RANGE(0, 5);
+#if MODE == 2
+  double theta = verif_bits_to_double(VERIF_RANDOM_MODE() ? (0x3ff8000000000000ULL - (ND_U64() & 0x1fffffffffffffULL)) : ND_U64());
+  ASSUME(theta == theta);
+#else
+  double theta = verif_bits_to_double(THETA_BITS);
+#endif
   double lb = 0, ub = 0;
   int r1 = w_bb_lower(n, theta, k, &lb), r2 = w_bb_upper(n, theta, k, &ub);
   OBSERVE(r1); OBSERVE(r2);
-  if (theta != theta) { WITNESS(); return; }   /* NaN theta: outside the documented domain, not asserted */
   int bad = (theta < 0.0 || theta > 1.0 || k < 1 || k > 3);
   ASSERT(r1 == bad && r2 == bad, "arguments outside [0,1] x {1,2,3} are refused, inside accepted");
-  if (!bad && theta > 0.0) {
+#if MODE == 0
+  if (!bad) { ASSERT(lb == (double)n && ub == (double)n, "exact mode (theta = 1): lower bound == estimate == upper bound == retained count"); OBSERVE(verif_double_to_bits(lb)); }
+#elif MODE == 1
+  if (!bad) {
     double est = (double)n / theta;
     ASSERT(lb <= est, "lower bound <= estimate");
     ASSERT(est <= ub, "estimate <= upper bound");
     ASSERT(lb >= (double)n || lb == est, "lower bound is at least the number of retained samples (or the estimate itself)");
     ASSERT(lb == lb && ub == ub, "bounds are never NaN");
   }
+#endif
   WITNESS();
 }
